@@ -247,19 +247,23 @@ def main(argv=None):
     hist_tasks = []
     seen_h = set()
     for r in results:
-        if any(ob["name"] == "frame.assigns" and ob["verdict"] == "refuted" for ob in r["obligations"]) \
+        all_hist = os.environ.get("PYVC_ALL_HISTORIES", "1" if tier == "thorough" else "0") == "1" and not r.get("via_callee") \
+            and any(K.name == r["function"] for K, _ in sel)
+        if (all_hist or any(ob["name"] == "frame.assigns" and ob["verdict"] == "refuted" for ob in r["obligations"])) \
                 and ct.REGISTRY[r["function"]].layer == "gadget" and "_history" not in r["cfg_raw"]:
             for kind in HI.KINDS:
                 key = (r["function"], repr(sorted(verify._cfg_repr(r["cfg_raw"]).items())), kind)
                 if key not in seen_h:
                     seen_h.add(key)
                     fac = next(f for K, f in sel if K.name == r["function"])
-                    hist_tasks.append((r["function"], dict(r["cfg_raw"], _history=kind), fac, tier))
+                    # the history configurations are a SEARCH for a failing input, never part of a proof: quick budgets
+                    hist_tasks.append((r["function"], dict(r["cfg_raw"], _history=kind), fac, "quick"))
     if hist_tasks:
         hres = run_tasks(hist_tasks, a.jobs, tier)
         for r in hres:
             # canaries and coverage were settled by the plain configurations
-            r["obligations"] = [ob for ob in r["obligations"] if not ob.get("canary") and not ob["name"].startswith(("cover.", "canary"))]
+            r["obligations"] = [ob for ob in r["obligations"] if not ob.get("canary") and not ob["name"].startswith(("cover.", "canary"))
+                                and ob["verdict"] != "unknown"]        # a search: only what it refutes (or proves) is reported
             r["engine_errors"] = []
         results = list(results) + [r for r in hres if not r.get("history_na")]
 
